@@ -47,6 +47,7 @@ fixed("F23", "C15", "finalize racing new_observer (subscribe_on worker subscribi
 fixed("F24", "C15", "timeout armed a timer while the stream was ending on another thread and never cancelled it", "regress/C15-timeout-arms-timer-while-finalizing.json", "fix: timeout cancels a timer it armed")
 fixed("F25", "C07", "group_by: emitting into the source from the callback that receives a new group self-deadlocked (group map write lock held across the downstream call)", "regress/C07-group_by-reentrant-emission-from-outer-callback.json", "fix: group_by announces a new group")
 fixed("F26", "C15", "timer(10).merge([cold<0 C>.subscribe_on(new), cold<0 E1>]).timeout(25): two items from different threads each armed a timer, the overwritten one was never cancelled (found by the thorough tier)", "regress/C15-timeout-concurrent-items-orphan-timer.json", "fix: timeout cancels a timer that is replaced")
+fixed("F27", "C13", "cold<C>.ref_count(): after the source completed (or erred) the next first subscriber did not subscribe the source again unless the earlier subscribers had also called unsubscribe(): sub0 gets <C>, sub1 gets nothing, ever (stale source subscription left in the slot)", "regress/C13-ref_count-no-reconnect-after-terminal.json", "fix: ref_count connects again after the source ended")
 import os, sys
 extra = os.path.join(os.path.dirname(__file__), 'known_extra.py')
 if os.path.exists(extra):
